@@ -16,3 +16,9 @@ Definition oracle_read (cl : list (string * (option Z * option fl))) (hdr : list
 (* the operation must raise e *)
 Definition oracle_raises (e : exn) (observed : option exn) : bool :=
   match observed with Some x => exn_eqb e x | None => false end.
+
+(* writetxt of a table whose columns are / are not series columns (one flag per column, any depth): TypeError iff
+   at least one of them is; a table of plain columns must be written without an exception *)
+Definition oracle_write_guard (series : list bool) (observed : option exn) : bool :=
+  if existsb (fun b => b) series then oracle_raises TypeError observed
+  else match observed with None => true | Some _ => false end.
